@@ -172,6 +172,13 @@ func bcastRandomCase(c *mon.Case) {
 		if r.IntN(5) == 0 {
 			wr.errAt = 1 + r.IntN(maxGen)
 			wr.predErr = fmt.Errorf("pred-error-%d", i)
+			switch r.IntN(4) {
+			case 0:
+				// an error of the guarded state that wraps a cancellation of some unrelated context: still the predicate's error
+				wr.predErr = fmt.Errorf("pred-error-%d: %w", i, context.Canceled)
+			case 1:
+				wr.predErr = fmt.Errorf("pred-error-%d: %w", i, context.DeadlineExceeded)
+			}
 		}
 		manual := r.IntN(4) == 0
 		wr.kind = "Wait"
